@@ -1,5 +1,6 @@
 """Run-time tap on the solver loop: wraps System._solve / _fwd_prop / _back_prop inside the harness
 process and records every sweep (iterate before, result after) of every run of the loop."""
+from decwire import excname
 import functools
 
 from decwire import cell
@@ -73,7 +74,7 @@ class SolverTap:
                 guarded(note)()
                 return ret
             except Exception as e:
-                run["end"] = {"kind": "raise", "exc": type(e).__name__, "iters": len(run["sweeps"]), "v": [], "i": []}
+                run["end"] = {"kind": "raise", "exc": excname(e), "iters": len(run["sweeps"]), "v": [], "i": []}
                 raise
             finally:
                 tap.cur = outer
